@@ -32,6 +32,7 @@ def check(world, spec, outcome) -> None:
     open_slots: dict[str, set] = {}
     qlen: dict[str, int] = {}
     bodies: dict[str, set] = {}
+    finished: dict[str, int] = {}   # per step: bodies that exited (not cancelled) and whose step_result tick is not processed yet
     n_idle = 0
     saw_q = False
     ended = False
@@ -60,9 +61,14 @@ def check(world, spec, outcome) -> None:
                 queued = sorted(s for s, v in qlen.items() if v)
                 if queued:
                     world.violate("C03.idle-while-queued", f"{ev} published while steps {queued} have queued events", seq, via=via)
-                rp = [(s, u) for a, b, s, u in rwin if a < seq < b]
+                rp = [(s, u, _t(recs, b) > _t(recs, a)) for a, b, s, u in rwin if a < seq < b]
                 if rp:
-                    world.violate("C03.idle-while-retry-pending", f"{ev} published while a retry of {rp[0]} is waiting out its delay", seq, via=via)
+                    # root-cause attribute: the recorded defect is that scheduled wake-ups (a retry waiting out a POSITIVE delay, i.e.
+                    # one that runs at a later virtual instant) are invisible to the idle check; an announcement made while a retry that
+                    # runs at this very instant is pending is a different thing
+                    world.violate("C03.idle-while-retry-pending", f"{ev} published at t={t} while a retry of {rp[0][:2]} is pending ("
+                                  f"{'it is waiting out a positive delay' if all(x[2] for x in rp) else 'zero delay: it runs at the instant of its failure'})", seq, via=via,
+                                  positive_delay=all(x[2] for x in rp))
                 dp = [u for a, b, u in dwin if a < seq < b]
                 if dp:
                     world.violate("C03.idle-while-undelivered", f"{ev} published while delivered event uid={dp[0]} is not yet processed", seq, via=via)
@@ -70,11 +76,21 @@ def check(world, spec, outcome) -> None:
             bodies.setdefault(f["step"], set()).add(f["inv"])
         elif kind == "exit":
             bodies.get(f["step"], set()).discard(f["inv"])
+            if f["exit"] != "cancelled":
+                finished[f["step"]] = finished.get(f["step"], 0) + 1
+        elif kind == "tick" and f["tick"] == "step_result":
+            if finished.get(f["step"], 0) > 0:
+                finished[f["step"]] -= 1
         elif kind == "stable" and not ended:
             for step, q in qlen.items():
                 if q > 0 and len(open_slots.get(step, ())) < workers.get(step, 0):
                     world.violate("C03.stall", f"step {step} has {q} queued events but only {len(open_slots.get(step, ()))} "
-                                  f"of {workers[step]} workers running", seq)
+                                  f"of {workers[step]} workers running", seq, how="free-slot")
+                elif q > 0 and finished.get(step, 0) > 0 and len(open_slots.get(step, ())) - finished[step] < workers.get(step, 0):
+                    # a slot that is still RUNNING on the record although its invocation has returned / raised / suspended and the
+                    # loop has drained without processing that outcome is not running anything
+                    world.violate("C03.stall", f"step {step} has {q} queued events while {finished[step]} of its {len(open_slots.get(step, ()))} RUNNING slots "
+                                  f"belong to invocations that already finished and whose result was never processed", seq, how="slot-held-by-finished-invocation")
     if saw_q:
         world.probe("queued")
     if n_idle:
